@@ -363,6 +363,14 @@ func checkC19(c *c19Case) error {
 			}
 		}
 	}
+	if len(ns) > 0 && len(c.Select)%2 == 0 {
+		// distinct struct types that share their name and field names: each is filled from its OWN tags
+		for k := 0; k < 3; k++ {
+			if err := checkNamedTarget(ns[0], k+len(ns)); err != nil {
+				return err
+			}
+		}
+	}
 	gotErr := safeUnmarshal(res, arg.Interface(), c19Bindings(c.Bind)...)
 	st.Eval(1)
 	if pe, ok := gotErr.(*panicError); ok {
@@ -612,6 +620,14 @@ func checkC19Bad(c *c19BadCase) error {
 	res, err := safeExec(p.root, g)
 	if err != nil {
 		return fmt.Errorf("bad case: %v", err)
+	}
+	if ns, ok := res.(xsel.NodeSet); ok && len(ns) > 0 {
+		// supported targets too: struct types that share their name and have different numbers of fields
+		for k := 0; k < len(c13Targets); k++ {
+			if err := checkNamedTarget(ns[0], k); err != nil && strings.Contains(err.Error(), "panic:") {
+				return err
+			}
+		}
 	}
 	type S struct {
 		A string `xsel:"."`
